@@ -42,7 +42,7 @@ func (c09) Batches(tier string, seed uint64) []core.Batch {
 func (c09) Mandatory(tier string) []string {
 	return []string{"kind:string", "kind:int-negative", "kind:int-zero", "kind:uint>=2^63", "kind:bool-true", "kind:bool-false", "tag:control-name", "tag:skip", "tag:multiline",
 		"tag:required-present", "tag:required-empty-written", "required-missing-rejected", "list:default-delim", "list:default-delim-odd-interior-element", "list:comma", "list:comma-space", "list:newline", "list:empty-omitted",
-		"list:required-empty", "list:ints", "list:versions", "list:archs", "nested:version", "nested:dependency", "nested:arch", "nested:checksums", "ptr:nil", "ptr:non-nil",
+		"list:required-empty", "list:ints", "list:versions", "list:archs", "nested:version", "nested:dependency", "nested:arch", "nested:checksums", "nested:variable-reused-for-the-next-paragraph", "ptr:nil", "ptr:non-nil",
 		"pass:unknown-kept", "pass:overwritten", "pass:cleared", "pass:newly-set", "pass:documents", "pass:marshal-twice", "pass:clear-marshal-set-marshal", "pass:late-embedded-cleared", "pass:all-omittable-struct", "setupdate", "types:same-name-different-layout"}
 }
 
@@ -360,6 +360,19 @@ func (p c09) nested(c *core.C, v prNested) {
 	if len(v.Sums) > 0 || len(v.Files) > 0 {
 		c.Cover("nested:checksums")
 	}
+	// the next paragraph of a stream decoded into the SAME variable: fields that are present but empty there (or
+	// absent) must not keep what the previous paragraph put into the variable
+	next := "Name: second\nDepends:\nArchitecture: all\nV:\n"
+	var fresh prNested
+	errF := control.Unmarshal(&fresh, strings.NewReader(next))
+	errR := control.Unmarshal(&got, strings.NewReader(next))
+	if (errF == nil) != (errR == nil) {
+		c.Failf("decoding %q into a variable that held another paragraph: error %v; into a fresh variable: error %v", next, errR, errF)
+	} else if errF == nil && (normDep(&got.D) != normDep(&fresh.D) || got.V != fresh.V || got.A != fresh.A || got.Name != fresh.Name) {
+		c.Failf("decoding %q into a variable that held %q gives Depends %s, V %+v, Architecture %+v; into a fresh variable Depends %s, V %+v, Architecture %+v",
+			next, text, normDep(&got.D), got.V, got.A, normDep(&fresh.D), fresh.V, fresh.A)
+	}
+	c.Cover("nested:variable-reused-for-the-next-paragraph")
 	c.Nontrivial()
 }
 
